@@ -7,7 +7,7 @@ from kvstatic.core import Repo, Report, ModelError, AnchorError, norm
 from kvstatic import oracle
 from kvstatic.mvlogic import Logic
 from kvstatic.tt import LaneViolation, ShapeViolation
-from kvstatic.astutil import find_all, attr_chain, is_name, call_name, body_no_doc, walk_no_nested_funcs
+from kvstatic.astutil import find_all, attr_chain, is_name, call_name, body_no_doc, walk_no_nested_funcs, parents
 
 CH = '0X-1PRFN'
 
@@ -164,6 +164,20 @@ def check_wrappers(rep, lg: Logic):
                     guarded = True
                 if not guarded:
                     rep.violate('C12.out', mod, f, st, f'{name}: `out` is rebound unconditionally; a caller-supplied output array does not receive the result', node=st)
+        # the result array the function allocates itself holds 3-bit codes: it must be a uint8 array (numpy's default is float64)
+        for c in find_all(f, ast.Call, nested=False):
+            if call_name(c) in ('np.empty', 'np.zeros', 'np.ones', 'np.full', 'np.empty_like', 'np.zeros_like') and any(
+                    isinstance(p, ast.Assign) and any(is_name(t, 'out') for t in p.targets) for p in parents(c)):
+                dt = next((norm(k.value) for k in c.keywords if k.arg == 'dtype'), None)
+                if dt is None and call_name(c) in ('np.full',) and len(c.args) >= 3:
+                    dt = norm(c.args[2])
+                if dt is None and call_name(c) in ('np.empty', 'np.zeros', 'np.ones') and len(c.args) >= 2:
+                    dt = norm(c.args[1])
+                okd = dt in ('np.uint8', "'uint8'", 'numpy.uint8') or (call_name(c).endswith('_like') and dt is None)
+                rep.ob('C12.out', f'{name}: allocated result dtype {dt}', okd)
+                if not okd:
+                    rep.violate('C12.out', mod, f, c, f'{name}: the result array is allocated with dtype {dt} (`{norm(c)[:70]}`); multi-valued codes are uint8 - a float result breaks '
+                                f'every operator applied to it afterwards (bitwise operations on floats raise TypeError) and the conversion to the bit-parallel format', node=c)
     rep.floor('functions with out= parameter', n, 6)
 
 
@@ -255,6 +269,7 @@ def depends(rep, repo):
     lg = Logic(repo)
     rep.rule('C02.alias', 'a call whose output location is also an operand gives the same table as without aliasing')
     mod, cp, chains, tv, tables, infos, luts, reach, weights, rows, sites = c02.branch_tables(rep, repo, lg)
+    _conversion_rules(rep, repo)
     seen = set()
     for (m, const), (info, body, test) in sorted(infos.items()):
         for fn, out, args in info['calls']:
@@ -273,6 +288,12 @@ def depends(rep, repo):
                 if not oka:
                     rep.violate('C02.alias', lg.mod if hasattr(lg, 'mod') else 'logic', fn, f'logic.{fn}(x, ..., x)', f'logic.{fn} with its output array also passed as operand {j} '
                                 f'(as LogicSim.c_prop does for {const}) overwrites the operand before it is read', node=test)
+
+
+def _conversion_rules(rep, repo):
+    """"The two storage formats agree": the format conversions mv_to_bp / bp_to_mv / packbits (C15.bitorder) are what relates them."""
+    from checks import c15
+    c15.plumbing(rep, repo, repo.mod('logic'))
 
 
 def thorough(rep, repo):
